@@ -64,16 +64,48 @@ def run(run):
         run.undecided("C07.R8", None, None, "fewer than 4 call sites hand a coordinate system on", kind="floor", construct="<coordsys forwarding>", file="toasty/toast.py")
 
 
+def _filter_eval(project, outer=None, no_inline=()):
+    """The tile filter `_latlon_tile_filter(lon_min, lon_max, lat_min, lat_max)` (or another factory *outer*) hands back, applied
+    to a tile: a closure of the factory, or the __call__ of a project object it returns (fields = what the closure would
+    capture; a tuple of boxes held by the object is walked box by box).
+    -> (Func for reports, factory Func, evaluation result, tile symbol) or None."""
+    outer = outer or project.fn(S + "._latlon_tile_filter")
+    ev = sym.make_evaluator(project, S, [], inline_local=True, no_inline=tuple(no_inline))
+    ev.model_objects = True
+    ev.unroll = True
+    if outer.cls is not None:
+        ev.self_class = "%s.%s" % (S, outer.cls.name)
+    ro = ev.run(outer.node)
+    if len(ro.returns) != 1:
+        return None
+    R = ro.returns[0][1]
+    if R[0] == "sym" and R[1].startswith("<closure ") and R[1][9:-1] in ro.nested:
+        name = R[1][9:-1]
+        fn, env = ro.nested[name]
+        f = project.funcs.get("%s.%s" % (outer.qual, name)) or project.funcs.get("%s._latlon_tile_filter.%s" % (S, name))
+        if f is None:
+            return None
+        return f, outer, ev.run(fn, env=env), ("sym", f.params()[0])
+    if R in ro.objects:
+        f = project.funcs.get(ro.objects[R][0] + ".__call__")
+        if f is None or len(f.params()) != 2:
+            return None
+        fenv = dict(ro.env or {})
+        fenv.update(ro.objects[R][1])
+        ev.recv_classes = dict(ev.recv_classes or {})
+        return f, outer, ev.run(f.node, env=fenv, args={f.params()[0]: R}), ("sym", f.params()[1])
+    return None
+
+
 def _r1_purity(run):
     project = run.project
-    f = project.fn(S + "._latlon_tile_filter.latlon_tile_filter")
+    fe = _filter_eval(project)
+    if fe is None:
+        run.undecided("C07.R1", project.fn(S + "._latlon_tile_filter"), None, "the tile filter handed back by _latlon_tile_filter is neither a closure nor a callable object "
+                      "of the project: not followed", kind="filter-shape")
+        return
+    f, outer, r, tile = fe
     run.note_func(f)
-    outer = project.fn(S + "._latlon_tile_filter")
-    ev = sym.make_evaluator(project, S, [])
-    ro = ev.run(outer.node)
-    fn, env = ro.nested[f.name]
-    r = ev.run(fn, env=env)
-    tile = ("sym", f.params()[0])
     calls = [e for e in r.events if e.kind == "call" and e.term[1] == ("sym", "tile_intersects_latlon_bbox")]
     if len(calls) != 1:
         run.undecided("C07.R1", f, None, "filter does not call the compiled bbox test exactly once", kind="filter-shape")
@@ -297,6 +329,13 @@ def _r4_bounds(run):
     e2 = lambda src, **k: ev.expr(src, k)
     want = ("tuple", (e2("sx*cx - P", sx=sx, cx=cx, P=sym.PI), e2("sx*(cx+cw) - P", sx=sx, cx=cx, cw=cw, P=sym.PI),
                       e2("P/2 - sy*(cy+ch)", sy=sy, cy=cy, ch=ch, P=sym.PI), e2("P/2 - sy*cy", sy=sy, cy=cy, P=sym.PI)))
+    def as_tuple(t):
+        # a 4-field record (namedtuple) in the documented field order is the tuple of its values
+        if t[0] == "nt" and len(t[2]) == 4:
+            return ("tuple", tuple(t[2]))
+        return t
+    if len(r.returns) == 1:
+        r.returns[0] = (r.returns[0][0], as_tuple(r.returns[0][1]), r.returns[0][2])
     if len(r.returns) == 1 and r.returns[0][1] == want:
         run.holds("C07.R4", f, None, "chunk bounds = (lon_l, lon_r, lat_d, lat_u) from (sx, cx, cw) and (sy, cy, ch) respectively")
     elif len(r.returns) == 1 and r.returns[0][1][0] == "tuple" and len(r.returns[0][1][1]) == 4:
@@ -327,17 +366,57 @@ def _r4_bounds(run):
             and rg.returns[0][1][2][0][1][1] == ("attr", ("sym", "self"), attr)
         if ok:
             run.holds("C07.R4", g, None, "filter = _latlon_tile_filter(*self.%s(...)): positional order preserved" % attr)
+            continue
+        # any other way of building the filter: what the compiled test finally receives for a tile must be the producer's four
+        # values, in the producer's order
+        fe_g = None
+        try:
+            fe_g = _filter_eval(project, g, no_inline=(attr,))
+        except Exception:
+            fe_g = None
+        bcalls = [e for e in fe_g[2].events if e.kind == "call" and e.term[1][0] in ("sym", "attr") and show(e.term[1]).split(".")[-1].lstrip("_") in
+                  ("tile_intersects_latlon_bbox", "intersects")] if fe_g is not None else []
+        if fe_g is None or len(bcalls) != 1 or len(bcalls[0].term[2]) != 5:
+            run.undecided("C07.R4", g, None, "the filter built by %s is not followed down to the compiled intersection test" % g.short, kind="filter-factory-shape")
+            continue
+        got = bcalls[0].term[2][1:]
+        prod = [x for x in _subterms_c07(("tuple", tuple(got))) if x[0] == "call" and x[1] == ("attr", ("sym", "self"), attr)]
+        if not prod:
+            run.undecided("C07.R4", g, None, "the bounds reaching the compiled test (%s) do not come from self.%s" % ([show(x)[:30] for x in got], attr), kind="filter-factory-shape")
+            continue
+        cbt = prod[0]
+        flds = ()
+        try:
+            rp = sym.make_evaluator(project, S, []).run(project.fn("%s.%s.%s" % (S, g.cls.name, attr)).node)
+            if len(rp.returns) == 1 and rp.returns[0][1][0] == "nt":
+                flds = ev.namedtuples.get(rp.returns[0][1][1]) or ()
+        except Exception:
+            flds = ()
+        pos_of = {("item", cbt, i): i for i in range(4)}
+        pos_of.update({("attr", cbt, fld): i for i, fld in enumerate(flds)})
+        order = [pos_of.get(x) for x in got]
+        if order == [0, 1, 2, 3]:
+            run.holds("C07.R4", g, bcalls[0].node, "the filter hands the four values of self.%s(...) to the compiled test in the producer's order" % attr)
+        elif None in order:
+            run.undecided("C07.R4", g, bcalls[0].node, "the compiled test receives %s: not the plain items of self.%s" % ([show(x)[:40] for x in got], attr), kind="filter-factory-shape")
         else:
-            run.violated("C07.R4", g, None, "filter factory does not pass the bounds tuple of self.%s positionally to _latlon_tile_filter" % attr, kind="filter-factory")
+            run.violated("C07.R4", g, bcalls[0].node, "the filter hands the bounds of self.%s to the compiled test in the order %s instead of (lon_min, lon_max, lat_min, lat_max)" % (
+                attr, order), kind="filter-factory")
     # (c) the filter closure passes its four parameters unmodified, in order, to the compiled test
     outer = project.fn(S + "._latlon_tile_filter")
     run.note_func(outer)
-    ro = ev.run(outer.node)
-    fn, env = ro.nested["latlon_tile_filter"]
-    rc = ev.run(fn, env=env)
-    calls = [e for e in rc.events if e.kind == "call" and e.term[1] == ("sym", "tile_intersects_latlon_bbox")]
+    fe = _filter_eval(project)
+    if fe is None:
+        run.undecided("C07.R4", outer, None, "the tile filter handed back by _latlon_tile_filter is not followed", kind="no-bbox-call")
+        calls = []
+        rc = None
+    else:
+        rc = fe[2]
+        calls = [e for e in rc.events if e.kind == "call" and e.term[1] == ("sym", "tile_intersects_latlon_bbox")]
     params = tuple(("sym", p) for p in outer.params())
-    if calls and tuple(calls[0].term[2][1:]) == params:
+    if fe is None:
+        pass
+    elif calls and tuple(calls[0].term[2][1:]) == params:
         run.holds("C07.R4", outer, calls[0].node, "compiled test receives (lon_min, lon_max, lat_min, lat_max) exactly as given")
     elif calls:
         got = calls[0].term[2][1:]
@@ -359,6 +438,8 @@ def _r4_bounds(run):
     ev_nc = sym.make_evaluator(project, S, [])
     ev_nc.inline_closures = False
     rb = ev_nc.run(ib.node)
+    if len(rb.returns) == 1:
+        rb.returns[0] = (rb.returns[0][0], as_tuple(rb.returns[0][1]), rb.returns[0][2])
     if len(rb.returns) == 1 and rb.returns[0][1][0] == "tuple" and len(rb.returns[0][1][1]) == 4:
         got = [show(x) for x in rb.returns[0][1][1]]
         want_s = ["<closure refine_lon>(np.argmin)", "<closure refine_lon>(np.argmax)", "<closure refine_lat>(np.argmin)", "<closure refine_lat>(np.argmax)"]
@@ -384,6 +465,17 @@ def _r4_bounds(run):
         run.undecided("C07.R4", sm, None, "chunk sampler does not fill the buffer from index arrays", kind="chunk-unpack-shape")
     else:
         iy_t, ix_t = fills[0].term[2][1][1], fills[0].term[2][2][1]
+        # bounds returned as a record (namedtuple): its fields are the four items, by position
+        try:
+            rcb = sym.make_evaluator(project, S, []).run(project.fn(S + ".ChunkedPlateCarreeSampler._chunk_bounds").node)
+            rec = rcb.returns[0][1] if len(rcb.returns) == 1 else None
+        except Exception:
+            rec = None
+        if rec is not None and rec[0] == "nt" and len(rec[2]) == 4:
+            flds = ev.namedtuples.get(rec[1]) or ()
+            if len(flds) == 4:
+                m_ = {("attr", cb, fld): B[i] for i, fld in enumerate(flds)}
+                iy_t, ix_t = _subst_term(iy_t, m_), _subst_term(ix_t, m_)
         used = [i for i in range(4) if B[i] in atoms_of(ix_t)], [i for i in range(4) if B[i] in atoms_of(iy_t)]
         if used == ([0, 1], [2, 3]):
             # x index from (lon_min, lon_max): (lon - lon_min) * nx/(lon_max - lon_min) - 1/2; y from (lat_min, lat_max), counted from lat_max
@@ -409,9 +501,9 @@ def _r4_bounds(run):
                 run.violated("C07.R4", sm, fills[0].node, "chunk sampler: the row index at lat = lat_max is %s, expected -1/2 (rows counted down from the top edge)" % show(oy), kind="chunk-unpack")
             else:
                 run.holds("C07.R4", sm, fills[0].node, "chunk sampler uses (bounds[0], bounds[1]) for the column index and (bounds[2], bounds[3]) for the row index")
-        elif common.unfollowed_project_calls(project, fx) or common.unfollowed_project_calls(project, fy):
+        elif [u_ for u_ in common.unfollowed_project_calls(project, ix_t) + common.unfollowed_project_calls(project, iy_t) if u_ != cb]:
             run.undecided("C07.R4", sm, fills[0].node, "chunk sampler: the index arithmetic goes through %s, which is not followed" % show(
-                (common.unfollowed_project_calls(project, fx) + common.unfollowed_project_calls(project, fy))[0])[:70], kind="chunk-unpack-opaque")
+                [u_ for u_ in common.unfollowed_project_calls(project, ix_t) + common.unfollowed_project_calls(project, iy_t) if u_ != cb][0])[:70], kind="chunk-unpack-opaque")
         else:
             run.violated("C07.R4", sm, fills[0].node, "chunk sampler computes the column index from bounds %s and the row index from bounds %s of _chunk_bounds; "
                          "expected (lon_min, lon_max) = items 0, 1 and (lat_min, lat_max) = items 2, 3" % used, kind="chunk-unpack")
@@ -509,6 +601,13 @@ def _r7_union_filter(run):
             trues = [(pc, t) for pc, t, nd in rc.returns if t == sym.TRUE]
             falses = [(pc, t) for pc, t, nd in rc.returns if t == sym.FALSE]
             loopsL = [k for k, it, nd in rc.loops if it == L]
+            if tile_p is not None and len(rc.returns) == 1 and not [c for c in rc.returns[0][0] if c[0] != "loop"]:
+                # return any(flt(tile) for flt in L)
+                t_ = rc.returns[0][1]
+                arg_ = t_[2][0] if (t_[0] == "call" and t_[1] == ("sym", "any") and len(t_[2]) == 1 and not t_[3]) else (t_[2][0] if (t_[0] == "op" and t_[1] == "any" and t_[2]) else None)
+                if arg_ is not None and arg_[0] == "op" and arg_[1] == "comp" and len(arg_[2]) == 4:
+                    kind_, elt_, it_, cnd_ = arg_[2]
+                    ok = it_ == L and elt_ == ("call", ("elem", L), (tile_p,), ()) and cnd_ in (sym.TRUE, ("const", True))
             if tile_p is not None and loopsL and len(trues) == 1 and len(falses) == 1 and len(rc.returns) == 2:
                 k = loopsL[0]
                 el = ("elem", L)
@@ -703,3 +802,13 @@ def _count_lower_bound(n, lo, hi):
         if inner == sym.sub(hi, lo):
             return ("bad", "ceil(hi - lo) is 1 for ranges up to one pixel")
     return ("unknown", "")
+
+
+def _subterms_c07(t):
+    if isinstance(t, tuple):
+        if t and isinstance(t[0], str):
+            yield t
+        for x in t:
+            if isinstance(x, tuple):
+                for y in _subterms_c07(x):
+                    yield y
